@@ -152,6 +152,7 @@ type replayInput struct {
 	kind     string
 	stream   *streamScript
 	note     string
+	callArgs string
 }
 
 type streamScript struct {
@@ -197,31 +198,57 @@ func extractInput(w *World, vc *VC, ob *Obligation, cond string, kind string) *r
 			dataBase, dataLen = findDecl(vc, "f1_p_"+p.Name(), 0), findDecl(vc, "f1_p_"+p.Name(), 1)
 		}
 	}
-	if dataLen == "" {
-		return nil
-	}
-	in.hasData = true
-	terms = append(terms, dataLen)
 	u8 := "H_uint8_0"
 	const maxBytes = 48
-	for k := 0; k < maxBytes; k++ {
-		terms = append(terms, fmt.Sprintf("(select %s (+ %s %d))", u8, dataBase, k))
+	if dataLen == "" {
+		// methods without a byte-slice parameter: String(), WellFormed(), dump(w), WriteTo(w)
+		np := len(fn.Params) - 1
+		if !(np == 0 || (np == 1 && isIfaceT(fn.Params[1].Type()))) {
+			return nil
+		}
+		in.callArgs = ""
+		if np == 1 {
+			in.callArgs = "io.Discard"
+		}
+		dataLen = "0"
+		terms = append(terms, "0")
+		for k := 0; k < maxBytes; k++ {
+			terms = append(terms, "0")
+		}
+	} else {
+		in.hasData = true
+		in.callArgs = "data"
+		terms = append(terms, dataLen)
+		for k := 0; k < maxBytes; k++ {
+			terms = append(terms, fmt.Sprintf("(select %s (+ %s %d))", u8, dataBase, k))
+		}
 	}
 	// scalar fields of the receiver
 	recvBase := findDecl(vc, "f1_p_"+fn.Params[0].Name(), 0)
 	var fieldTerms []struct{ name, term string; l Leaf }
 	var sliceTerms []struct{ name, term, typ string }
+	var ptrTerms []struct{ name, term, typ string }
 	if st, ok := elemOf(fn.Params[0].Type()).Underlying().(*types.Struct); ok {
 		for i := 0; i < st.NumFields(); i++ {
 			ft := st.Field(i).Type()
 			ls := flatten(ft)
-			if isSliceT(ft) && typeStr(elemOf(ft)) == "uint8" {
+			if isSliceT(ft) {
 				arr := ls[1].Key + "_0"
 				if !vc.declared[arr] {
 					continue
 				}
 				t := fmt.Sprintf("(select %s (+ %s %d))", arr, recvBase, fieldSlotOffset(st, i))
-				sliceTerms = append(sliceTerms, struct{ name, term, typ string }{st.Field(i).Name(), t, typeStr(ft)})
+				sliceTerms = append(sliceTerms, struct{ name, term, typ string }{st.Field(i).Name(), t, types.TypeString(ft, func(*types.Package) string { return "" })})
+				terms = append(terms, t)
+				continue
+			}
+			if pt, ok := ft.Underlying().(*types.Pointer); ok {
+				arr := ls[0].Key + "_0"
+				if !vc.declared[arr] {
+					continue
+				}
+				t := fmt.Sprintf("(select %s (+ %s %d))", arr, recvBase, fieldSlotOffset(st, i))
+				ptrTerms = append(ptrTerms, struct{ name, term, typ string }{st.Field(i).Name(), t, types.TypeString(pt.Elem(), func(*types.Package) string { return "" })})
 				terms = append(terms, t)
 				continue
 			}
@@ -257,6 +284,9 @@ func extractInput(w *World, vc *VC, ob *Obligation, cond string, kind string) *r
 		return nil
 	}
 	n, ok := smtInt(vals[dataLen])
+	if dataLen == "0" {
+		n, ok = 0, true
+	}
 	if !ok || n < 0 || n > 1<<20 {
 		return nil
 	}
@@ -282,10 +312,15 @@ func extractInput(w *World, vc *VC, ob *Obligation, cond string, kind string) *r
 	}
 	for _, f := range sliceTerms {
 		if n, ok := smtInt(vals[f.term]); ok && n > 0 && n < 1<<20 {
-			in.fields[f.name] = fmt.Sprintf("make([]byte, %d)", n)
+			in.fields[f.name] = fmt.Sprintf("make(%s, %d)", f.typ, n)
 		}
 	}
-	if kind == "decreases" || kind == "inv-preserved" {
+	for _, f := range ptrTerms {
+		if n, ok := smtInt(vals[f.term]); ok && n > 0 {
+			in.fields[f.name] = fmt.Sprintf("new(%s)", f.typ)
+		}
+	}
+	if kind == "decreases" {
 		in.watchdog = true
 	}
 	return in
@@ -308,9 +343,9 @@ func findDecl(vc *VC, prefix string, k int) string {
 
 func (in *replayInput) testSource() string {
 	var b strings.Builder
-	b.WriteString("package mq\n\nimport (\n\t\"fmt\"\n\t\"testing\"\n)\n\n")
+	b.WriteString("package mq\n\nimport (\n\t\"fmt\"\n\t\"io\"\n\t\"testing\"\n)\n\nvar _ = io.Discard\n\n")
 	b.WriteString("func TestVerifReplay(t *testing.T) {\n")
-	fmt.Fprintf(&b, "\tdata := make([]byte, %d)\n\tcopy(data, []byte{", len(in.data))
+	fmt.Fprintf(&b, "\tdata := make([]byte, %d)\n\t_ = data\n\tcopy(data, []byte{", len(in.data))
 	for i, c := range in.data {
 		if i >= 48 {
 			break
@@ -331,8 +366,8 @@ func (in *replayInput) testSource() string {
 		fmt.Fprintf(&b, "\tp.%s = %s\n", name, in.fields[name])
 	}
 	b.WriteString("\tdefer func() {\n\t\tif e := recover(); e != nil {\n\t\t\tfmt.Println(\"REPLAY-PANIC:\", e)\n\t\t}\n\t}()\n")
-	fmt.Fprintf(&b, "\terr := (&p).%s(data)\n", in.method)
-	b.WriteString("\tfmt.Println(\"REPLAY-RETURNED:\", err)\n}\n")
+	fmt.Fprintf(&b, "\t(&p).%s(%s)\n", in.method, in.callArgs)
+	b.WriteString("\tfmt.Println(\"REPLAY-RETURNED\")\n}\n")
 	return b.String()
 }
 
@@ -393,7 +428,7 @@ func searchReplay(w *World, r *Result, seed *replayInput) string {
 	if m == nil || m[2] != "UnmarshalBinary" {
 		return ""
 	}
-	hang := r.Ob.Kind == "decreases" || r.Ob.Kind == "inv-preserved"
+	hang := r.Ob.Kind == "decreases"
 	if !hang && !panicKinds[r.Ob.Kind] {
 		return ""
 	}
